@@ -344,6 +344,32 @@ single communication qubit, the handle ids otherwise; `sdk_epr_rsp_recv` always 
 def idsInit (c : Config) (handleIds : List Int) : List Int :=
   if c.api == "keep" && c.nv then handleIds.map (fun _ => 0) else handleIds
 
+/-! ### requested measurement bases → rotations placed in the request -/
+
+abbrev Rot := Nat × Nat × Nat
+
+/-- `basis_to_rotation`, from the generated table (name, rotations, name `rotation_to_basis` gives back) -/
+def basisRot (table : List (String × Rot × Option String)) (name : String) : Option Rot :=
+  (table.find? (fun r => r.1 == name)).map (fun r => r.2.1)
+
+/-- `create_measure` / `create_rsp`, per side: a basis given by NAME takes precedence, otherwise the
+rotation tuple given for THAT side (default (0,0,0)) is used -/
+def resolveRot (table : List (String × Rot × Option String)) (basis : Option String) (rot : Rot) : Option Rot :=
+  match basis with
+  | some b => basisRot table b
+  | none => some rot
+
+/-- the rotations of both sides that go into the request (`EntRequestParams.rotations_local/remote`) -/
+def requestRots (table : List (String × Rot × Option String)) (bl br : Option String) (rl rr : Rot) :
+    Option (Rot × Rot) :=
+  match resolveRot table bl rl, resolveRot table br rr with
+  | some l, some r => some (l, r)
+  | _, _ => none
+
+/-- slots `SER_CREATE_IDX_ROTATION_X_LOCAL1 … X_REMOTE2` of the serialized request, in array order
+(X1, Y, X2 local, then X1, Y, X2 remote); an unwritten slot reads as 0 at the controller -/
+def serRots (l r : Rot) : List Nat := [l.1, l.2.1, l.2.2, r.1, r.2.1, r.2.2]
+
 /-! ### small-step semantics of the command subset -/
 
 inductive Ev
